@@ -498,6 +498,15 @@ def _ext_call(ev, dotted, args, kwargs, fr, node):
                                     'all': all, 'pow': pow, 'round': round}[short](*[a[1] for a in args]))
                 except Exception:
                     return T.raise_('TypeError')
+            if short in ('all', 'any') and len(args) == 1 and not kwargs:
+                from .evalr import _fixed_items
+                items = _fixed_items(args[0])
+                if items is not None and len(items) <= 64:
+                    # all/any of a fixed number of values: their conjunction / disjunction
+                    out = T.TRUE if short == 'all' else T.FALSE
+                    for it_ in items:
+                        out = T.and_(out, ev.truth(it_, fr)) if short == 'all' else T.or_(out, ev.truth(it_, fr))
+                    return out
             return T.raw_op(short.upper(), *args)
         if short == 'format' and len(args) == 2 and T.is_const(args[1]) and isinstance(args[1][1], str):
             import re as _re
@@ -558,6 +567,8 @@ def _ext_call(ev, dotted, args, kwargs, fr, node):
     if dotted == 'unicodedata.is_normalized' and len(args) == 2 and not kwargs:
         # by definition: the string equals its normal form
         return T.eq(normalize(args[0], args[1]), args[1])
+    if dotted in ('threading.Lock', 'threading.RLock') and not args and not kwargs:
+        return T.raw_op('LOCKOBJ', T.const(dotted))
     if dotted == 'base64.b64encode':
         return T.raw_op('B64ENC', args[0])
     if dotted in ('collections.namedtuple', 'typing.NamedTuple'):
@@ -727,6 +738,17 @@ def method_call(ev, recv, name, args, kwargs, fr, node):
         if name in ('print_help', 'print_usage'):
             ev.effects.append(('argparse-help', fr.fn.qual if fr.fn else None, node.lineno if node is not None else 0, name))
             return T.NONE
+    if T.is_op(recv, 'LOCKOBJ'):
+        # sequential evaluation: a lock that every path releases again is free when it is asked for (what other threads do
+        # is outside this model; the checks that speak about interleavings rest on the absence of shared state)
+        if name == 'acquire':
+            return T.TRUE
+        if name in ('release', '__exit__'):
+            return T.NONE
+        if name in ('locked',):
+            return T.FALSE
+        if name == '__enter__':
+            return T.TRUE
     # hashing objects
     if T.is_op(recv, 'HASHOBJ'):
         if name == 'digest':
